@@ -67,18 +67,35 @@ def main(argv):
     tier, seed = spec["tier"], spec["seed"]
     shard, n_shards = spec["shard"], spec["n_shards"]
     want_samples = {}
+    track = getattr(mod, "CRASH_IS_VIOLATION", False)
     g = 0
-    for cls, n in mod.plan(tier):
-        for idx in range(n):
-            g += 1
-            if g % n_shards != shard:
-                continue
+
+    def work():
+        if spec.get("replay_case") is not None:
+            import ast
+            yield "replay", 0, ast.literal_eval(spec["replay_case"])
+            return
+        g = 0
+        for cls, n in mod.plan(tier):
+            for idx in range(n):
+                g += 1
+                if g % n_shards != shard:
+                    continue
+                yield cls, idx, None
+
+    for cls, idx, case in work():
+        if True:
             rng = core.case_rng(seed, spec["prop"], cls, idx)
             try:
-                case = mod.gen(cls, idx, rng, tier)
+                if case is None:
+                    case = mod.gen(cls, idx, rng, tier)
                 if case is None:
                     ctx.outcomes["not-generated"] += 1
                     continue
+                if track:
+                    with open(argv[2] + ".cur", "w") as f:
+                        json.dump(dict(cls=cls, idx=idx,
+                                       case_repr=repr(case)), f)
                 outcome, viols = run_one(mod, case, ctx, cls, idx)
             except Exception as e:
                 result["errors"].append(dict(cls=cls, idx=idx,
